@@ -144,6 +144,9 @@ func LibDo(ctx erpc.CallCtx, a *LibArg) (interface{}, *erpc.Status) {
 		return &LibRes{Rid: a.Rid, Val: a.Val}, nil
 	case "badreply":
 		return make(chan int), nil
+	case "ret-okstatus":
+		// a handler may hand back an explicit status object that says OK
+		return &LibRes{Rid: a.Rid, Val: a.Val}, erpc.NewStatus(erpc.CodeOK, "", nil)
 	case "bigreply":
 		// larger than the message size limit the case configured (64 KiB)
 		return &LibRes{Rid: a.Rid, Val: strings.Repeat("B", 70000)}, nil
